@@ -604,7 +604,9 @@ func TestVerifC05(t *testing.T) {
 	cfgs := []cfg{{true, 0, -1, nCalls}, {false, 0, -1, nCalls}, {true, 65534, -1, nCalls}, {true, 65535, -1, nCalls}, {false, 65533, -1, nCalls}, {true, 65533, -1, nCalls},
 		{false, 0, 1, nCalls + 1}, {false, 0, 0, nCalls}}
 	if pauseMode {
-		cfgs = cfgs[:3] // the pause-point exploration multiplies every path by the statements it passes: fewer start states
+		// the pause-point exploration multiplies every path by the statements it passes: fewer start states. 65535: the connection's
+		// last id - two callers that both pick the connection before either has registered its query meet at the end of the id space
+		cfgs = []cfg{{true, 0, -1, nCalls}, {false, 0, -1, nCalls}, {true, 65535, -1, nCalls}}
 	}
 	if rp := report.ReplayFile(); rp != nil {
 		var x struct{ Scenario string }
